@@ -199,6 +199,13 @@ func (a *Lockset) collectAccesses() {
 							direct(fa, true, ins)
 						}
 					}
+				case *ssa.Slice:
+					// slicing an array that lives in a shared object hands out a writable alias of it
+					if fa, ok := x.X.(*ssa.FieldAddr); ok {
+						if _, isArr := derefPtr(fa.Type()).Underlying().(*types.Array); isArr {
+							direct(fa, true, ins)
+						}
+					}
 				case *ssa.UnOp:
 					if fa, ok := x.X.(*ssa.FieldAddr); ok && x.Op == token.MUL {
 						direct(fa, false, ins)
